@@ -48,6 +48,10 @@ func startDoc(r *rand.Rand) M {
 		us := []interface{}{}
 		for _, u := range uriPool[:1+r.Intn(3)] {
 			us = append(us, u)
+			if r.Intn(8) == 0 {
+				// an entry that is no string, as a validated ietf-json-patch can leave it: union and difference keep it
+				us = append(us, pick(r, []interface{}{5, M{"a": 1}, nil, true, []interface{}{"x"}}))
+			}
 		}
 		doc["alsoKnownAs"] = us
 	}
